@@ -1,6 +1,7 @@
 package engine
 
 import (
+	"go/types"
 	"encoding/json"
 	"fmt"
 	"os"
@@ -125,7 +126,10 @@ func functionsFor(prog *Program, cs *Contracts, prop string) []string {
 		for _, inv := range tc.Invariants {
 			if has(inv.Props) {
 				for name, fn := range prog.Funcs {
-					if _, ok := cs.Funcs[name]; ok && touchesLock(fn, tname, inv.Lock) {
+					if _, ok := cs.Funcs[name]; !ok {
+						continue
+					}
+					if touchesLock(fn, tname, inv.Lock) || (inv.Lock == "stable" && touchesType(fn, tname, cs)) {
 						set[name] = true
 					}
 				}
@@ -185,6 +189,27 @@ func functionsFor(prog *Program, cs *Contracts, prop string) []string {
 	}
 	sort.Strings(out)
 	return out
+}
+
+// touchesType: the function (or a closure of it without a contract of its
+// own) addresses a field of the named struct type. Stable invariants of the
+// type are re-established at the calls such a function makes.
+func touchesType(fn *ssa.Function, tname string, cs *Contracts) bool {
+	for _, b := range fn.Blocks {
+		for _, in := range b.Instrs {
+			if fa, ok := in.(*ssa.FieldAddr); ok {
+				if pt, ok := fa.X.Type().Underlying().(*types.Pointer); ok && namedKey(pt.Elem()) == tname {
+					return true
+				}
+			}
+		}
+	}
+	for _, an := range fn.AnonFuncs {
+		if _, own := cs.Funcs[FuncName(an)]; !own && touchesType(an, tname, cs) {
+			return true
+		}
+	}
+	return false
 }
 
 func touchesLock(fn *ssa.Function, tname, lock string) bool {
